@@ -209,6 +209,9 @@ def families(thorough):
     for t in (['sleep'], ['select', 'sleep'], ['begin', 'sleep']):
         for stop in ('X', 'eof', 'drop'):
             s.append(Case(t, stop=stop, stmt_timeout=True, roles=(1, 1)))
+    for t in (['die'], ['select', 'die'], ['begin', 'die']):
+        for stop in ('X', 'eof', 'drop'):
+            s.append(Case(t, stop=stop, roles=(1, 1)))
     F['failover'] = s
     # -- a second client after the first: nothing of the first is visible to it
     s = []
@@ -313,7 +316,7 @@ DESCR = {
     'two-clients': 'a first client (tracked-parameter SETs, named statements with caching on, an open transaction / COPY / session state at EOF) followed by a second client on the same server connections with its own parameters, statement names and requests',
     'copy': 'COPY IN sessions whose CopyData chunks have sizes on both sides of the 8196-byte forwarding threshold (1-3 chunks, CopyDone or CopyFail, then another query)',
     'commands': 'sessions that use the pooler commands (SET SHARD / SET SHARDING KEY with SYMBOLIC decimal digits, SHOW SHARD, SET SERVER ROLE, SET PRIMARY READS, and sharding_key / shard_id comments in a Query or a Parse) on a pool of two shards or of a primary and a replica, outside and inside BEGIN',
-    'failover': 'two replicas, statement_timeout configured, a statement the backend is slow on: the replica that timed out must be banned, also when the client has already gone',
+    'failover': 'two replicas; a statement the backend is slow on with statement_timeout configured, or a backend that closes its connection in the middle of a reply: the replica that failed must be banned, also when the client has already gone',
     'two-backends': 'a pool of two servers (replica+replica, primary+replica): either may be handed out at each checkout',
 }
 
